@@ -5,7 +5,7 @@
 -/
 import UnicLocale.Lemmas.RefineStep
 
-namespace UL
+namespace UL.Rf
 
 /-! ### normal forms are in their class -/
 
@@ -601,4 +601,4 @@ theorem step_err_iff (T : Tables) (x : Locale) (o : Op) (hx : x.inv = true) :
   exact absStep_err_iff _ _ _ (fun e => Likely.maximize_ne_err _ _ _ _ e)
     (fun e => Likely.minimize_ne_err _ _ _ _ e)
 
-end UL
+end UL.Rf
